@@ -266,6 +266,58 @@ func (c *c19) RunCase(w *core.Worker, idx int, seed uint64, res *core.CaseResult
 	// first call left behind - a lock, a full channel - would show here)
 	if sc.kind != "store-deleted" {
 		srv := server.NewVerif(ctx, &config.Config{}, c.env.Schema, c.env.Cache, map[string]*datastore.Datastore{ds.Name: ds.Datastore})
+		// streams that are refused (unknown datastore, nothing named) end at once and leave the server able to serve:
+		// a request that needs the datastore map for itself (every transaction call does) comes through afterwards
+		refused := 0
+		for _, name := range [][]string{{"nope"}, nil, {""}}[:1+rng.Intn(3)] {
+			rdone := make(chan error, 3)
+			n1 := ""
+			if len(name) > 0 {
+				n1 = name[0]
+			}
+			ws := fixture.NewFakeStream[*sdcpb.WatchDeviationResponse](ctx)
+			gs := fixture.NewFakeStream[*sdcpb.GetDataResponse](ctx)
+			ss := fixture.NewFakeStream[*sdcpb.SubscribeResponse](ctx)
+			go func() { rdone <- srv.WatchDeviations(&sdcpb.WatchDeviationRequest{Name: name}, ws) }()
+			go func() {
+				rdone <- srv.GetData(&sdcpb.GetDataRequest{Name: n1, Path: []*sdcpb.Path{model.Parse("/if").ToPb()}, Datastore: &sdcpb.DataStore{Type: sdcpb.Type_MAIN}}, gs)
+			}()
+			go func() {
+				rdone <- srv.Subscribe(&sdcpb.SubscribeRequest{Name: n1, Subscription: []*sdcpb.Subscription{{Path: []*sdcpb.Path{model.Parse("/if").ToPb()}, SampleInterval: uint64(time.Millisecond)}}}, ss)
+			}()
+			for i := 0; i < 3; i++ {
+				select {
+				case rerr := <-rdone:
+					refused++
+					if rerr == nil {
+						res.Violate("C19/stream-on-unknown-datastore-not-refused", "%s: a stream request naming %q afterwards ends without an error", desc, name)
+					}
+				case <-time.After(10 * time.Second):
+					c.hung(res, "C19/refused-stream-does-not-return", fmt.Sprintf("%s, then streams naming %q", desc, name), base)
+					ws.Cancel()
+					gs.Cancel()
+					ss.Cancel()
+					return
+				}
+			}
+			ws.Cancel()
+			gs.Cancel()
+			ss.Cancel()
+		}
+		res.Count("refused_streams", refused)
+		udone := make(chan error, 1)
+		go func() {
+			// (a unary call carries peer information as well)
+			_, uerr := srv.TransactionCancel(fixture.NewFakeStream[*sdcpb.GetDataResponse](ctx).Context(), &sdcpb.TransactionCancelRequest{DatastoreName: ds.Name, TransactionId: "none"})
+			udone <- uerr
+		}()
+		select {
+		case <-udone:
+			res.Count("follow_up_unary_calls", 1)
+		case <-time.After(10 * time.Second):
+			c.hung(res, "C19/server-blocked-after-streams", desc+", then refused streams and a TransactionCancel", base)
+			return
+		}
 		st2 := fixture.NewFakeStream[*sdcpb.GetDataResponse](ctx)
 		done2 := make(chan error, 1)
 		go func() {
